@@ -159,6 +159,12 @@ def map_type(q):
         its = [map_type(x) for x in a]
         nm = 'pair_%s_%s_t' % (_san(its[0].c), _san(its[1].c))
         return CType(nm, 'pair', '', ref, 0, its)
+    if base in ('ada_url', 'ada_url_search_params', 'ada_strings', 'ada_url_search_params_keys_iter',
+                'ada_url_search_params_values_iter', 'ada_url_search_params_entries_iter'):
+        return CType('void *', None, '', ref, 1, CType('void'))
+    m = re.match(r'^ada::result<(.*)>$', base)
+    if m:
+        base = 'tl::expected<%s, ada::errors>' % m.group(1)
     m = re.match(r'^tl::expected<(.*)>$', base)
     if m:
         a = split_targs(m.group(1))
